@@ -56,34 +56,52 @@ def directVars (schema : Schema) (ss : List Sel) : List String := directVarsWith
 
 def hasKey (k : String) (m : List (String × String)) : Prop := ∃ v, (k, v) ∈ m
 
-theorem hasKey_setStr_self (k v : String) (m : List (String × String)) : hasKey k (setStr k v m) := by
+theorem hasKey_setVarTypeWith_self (st : Bool) (k v : String) (m : List (String × String)) :
+    hasKey k (setVarTypeWith st k v m) := by
   induction m with
-  | nil => exact ⟨v, by simp [setStr]⟩
+  | nil => exact ⟨v, by simp [setVarTypeWith]⟩
   | cons x xs ih =>
     obtain ⟨k', v'⟩ := x
-    unfold setStr
-    split
-    · exact ⟨v, by simp⟩
-    · obtain ⟨w, hw⟩ := ih; exact ⟨w, by simp [hw]⟩
+    unfold setVarTypeWith
+    by_cases hk : k = k'
+    · simp only [hk, ↓reduceIte]
+      split
+      · exact ⟨v', by simp⟩
+      · exact ⟨v, by simp⟩
+    · simp only [hk, ↓reduceIte]
+      obtain ⟨w, hw⟩ := ih; exact ⟨w, by simp [hw]⟩
 
-theorem hasKey_setStr_mono {k : String} (k2 v2 : String) {m : List (String × String)} (h : hasKey k m) :
-    hasKey k (setStr k2 v2 m) := by
+theorem hasKey_setStr_self (k v : String) (m : List (String × String)) : hasKey k (setStr k v m) :=
+  hasKey_setVarTypeWith_self _ k v m
+
+theorem hasKey_setVarTypeWith_mono (st : Bool) {k : String} (k2 v2 : String) {m : List (String × String)} (h : hasKey k m) :
+    hasKey k (setVarTypeWith st k2 v2 m) := by
   induction m with
   | nil => obtain ⟨w, hw⟩ := h; simp at hw
   | cons x xs ih =>
     obtain ⟨k', v'⟩ := x
     obtain ⟨w, hw⟩ := h
-    unfold setStr
-    split
-    · rename_i heq
+    unfold setVarTypeWith
+    by_cases hk : k2 = k'
+    · simp only [hk, ↓reduceIte]
       simp only [List.mem_cons, Prod.mk.injEq] at hw
       rcases hw with ⟨h1, _⟩ | hw
-      · subst h1; subst heq; exact ⟨v2, by simp⟩
-      · exact ⟨w, by simp [hw]⟩
-    · simp only [List.mem_cons, Prod.mk.injEq] at hw
+      · subst h1
+        split
+        · exact ⟨v', by simp⟩
+        · exact ⟨v2, by simp⟩
+      · split
+        · exact ⟨w, by simp [hw]⟩
+        · exact ⟨w, by simp [hw]⟩
+    · simp only [hk, ↓reduceIte]
+      simp only [List.mem_cons, Prod.mk.injEq] at hw
       rcases hw with ⟨h1, h2⟩ | hw
       · exact ⟨w, by simp [h1, h2]⟩
-      · obtain ⟨w', hw'⟩ := ih ⟨w, hw⟩; exact ⟨w', by simp [hw']⟩
+      · obtain ⟨w2, hw2⟩ := ih ⟨w, hw⟩; exact ⟨w2, by simp [hw2]⟩
+
+theorem hasKey_setStr_mono {k : String} (k2 v2 : String) {m : List (String × String)} (h : hasKey k m) :
+    hasKey k (setStr k2 v2 m) :=
+  hasKey_setVarTypeWith_mono _ k2 v2 h
 
 mutual
   theorem childVarTypes_mono {k : String} : ∀ (v : Value) {acc : List (String × String)},
@@ -293,7 +311,63 @@ theorem mem_sortStrs {y : String} {l : List String} (h : y ∈ l) : y ∈ sortSt
 theorem C02_vars_facts :
     Gen.Vars.recognised = true ∧ Gen.Vars.directivesWalkedInHeader = true
     ∧ Gen.Vars.directivesWalkedInVariablesList = true ∧ Gen.Vars.declaredDefaultsApplied = true
-    ∧ Gen.Vars.declaredDefaultsAppliedSubscription = true := by decide
+    ∧ Gen.Vars.declaredDefaultsAppliedSubscription = true ∧ Gen.Vars.strictestTypeWins = true := by decide
+
+/-! ## One variable at several positions -/
+
+/-- the type recorded for a variable (first entry with that name, as `setVarTypeWith` finds it) -/
+def recordedType (k : String) (m : List (String × String)) : Option String := (m.find? (fun e => k == e.1)).map (·.2)
+
+/-- **A later, weaker position never weakens the declaration.** For every table of recorded
+    types: if `$k` is recorded with type `old` and is then met at a position of the same type up to
+    non-null marks with no more marks than `old` (`T` after `T!`), the table is unchanged — the
+    header keeps `$k: T!`, which is valid at both positions. -/
+theorem C02_header_type_never_weakens (k v old : String) (m : List (String × String))
+    (hold : recordedType k m = some old) (hsame : stripBang old = stripBang v) (hle : countBang v ≤ countBang old) :
+    setVarTypeWith true k v m = m := by
+  induction m with
+  | nil => simp [recordedType] at hold
+  | cons x xs ih =>
+    obtain ⟨k', v'⟩ := x
+    unfold setVarTypeWith
+    by_cases hk : k = k'
+    · subst hk
+      simp only [recordedType, List.find?_cons, beq_self_eq_true, Option.map_some, Option.some.injEq] at hold
+      subst hold
+      simp [hsame, hle]
+    · have hk' : (k == k') = false := by simpa using hk
+      simp only [recordedType, List.find?_cons, hk'] at hold
+      simp only [hk, ↓reduceIte]
+      rw [ih (by simpa [recordedType] using hold)]
+
+/-- **A later, stricter position strengthens it.** If `$k` is recorded with `old` and is then met at
+    a position whose type has more non-null marks, the recorded type becomes that type. -/
+theorem C02_header_type_strengthens (k v old : String) (m : List (String × String))
+    (hold : recordedType k m = some old) (hlt : countBang old < countBang v) :
+    recordedType k (setVarTypeWith true k v m) = some v := by
+  induction m with
+  | nil => simp [recordedType] at hold
+  | cons x xs ih =>
+    obtain ⟨k', v'⟩ := x
+    unfold setVarTypeWith
+    by_cases hk : k = k'
+    · subst hk
+      simp only [recordedType, List.find?_cons, beq_self_eq_true, Option.map_some, Option.some.injEq] at hold
+      subst hold
+      have : ¬ countBang v ≤ countBang v' := by omega
+      simp [recordedType, this]
+    · have hk' : (k == k') = false := by simpa using hk
+      simp only [recordedType, List.find?_cons, hk'] at hold
+      simp only [hk, ↓reduceIte, recordedType, List.find?_cons, hk']
+      exact ih (by simpa [recordedType] using hold)
+
+/-- **What the plain map assignment did** (before the repair): `$v: Int!` used at an `Int!` position
+    and then at an `Int` position was declared `$v: Int` — invalid at the first position (the
+    service answered `Variable "$v" of type "Int" used in position expecting type "Int!"`). -/
+theorem C02_before_repair_last_position_won :
+    setVarTypeWith false "v" "Int" [("v", "Int!")] = [("v", "Int")] ∧
+    setVarTypeWith true "v" "Int" [("v", "Int!")] = [("v", "Int!")] ∧
+    setVarTypeWith true "v" "Int!" [("v", "Int")] = [("v", "Int!")] := by decide
 
 /-! ## Declared -/
 
